@@ -61,6 +61,15 @@ def cases(tier, seed, args):
                   K=3 + i % 2, D=2, N=int(rng.integers(8, 11)), L=[3], wca=[(-3,), (-3, -1)][(i // 2) % 2], wca_type='tuple',
                   aligner=True, sam=False)
         out.append(dict(t='emtrace', **sc))
+    # clipping constants that are active (several iterations on separable data, three and more classes)
+    for i in range(4 if q else 24):
+        kind = ['cacgmm', 'cbmm', 'cacgmm', 'gcacgmm'][i % 4]
+        sc = mmd.scenario(rng, kind, tier)
+        sc.update(regime='separable', init='soft', dtype='float64', iterations=4 + i % 3, saliency=False, K=3 + (i // 2) % 2, D=3,
+                  N=int(rng.integers(12, 16)), L=[2] if kind == 'gcacgmm' else [], wca=(-1,), wca_type='tuple', aligner=False, sam=False)
+        sc['opts'] = dict({k: v for k, v in sc['opts'].items() if k not in ('inline_permutation_alignment',)}, affiliation_eps=[0.02, 0.005][i % 2])
+        sc.pop('wca_pos', None)
+        out.append(dict(t='emtrace', **sc))
     # continued fits (initialisation by a model)
     for i in range(4 if q else 24):
         sc = mmd.scenario(rng, 'cacgmm', tier)
@@ -86,7 +95,7 @@ def cases(tier, seed, args):
         dist = ['vmf', 'watson'][i % 2]
         out.append(dict(t='single', dist=dist, L=[], D=[2, 3, 5][(i // 2) % 3], N=int(rng.integers(10, 16)), saliency=bool((i // 6) % 2),
                         seed=int(rng.integers(1 << 30)), maxc=[5.0, 50.0, 500.0][(i // 6) % 3], concentrated=True,
-                        spread=[0.6, 0.2, 0.04][(i // 2 + i // 6) % 3]))
+                        spread=[0.6, 0.2, 0.04][(i // 2 + i // 6) % 3], zero_frames=[0, 2, 0, 3][(i // 2) % 4]))
     for i in range(24 if q else 240):
         nl = int(rng.integers(0, 3))
         integ = bool(i % 4 == 3)
@@ -190,7 +199,17 @@ def _emtrace(case):
     msteps = [f for e, f in events if e == 'mstep']
     pick = sorted(set([0, len(msteps) - 1]))
     mi = -1
+    eps_fit = float(opts.get('affiliation_eps', 1e-10 if kind in ('cacgmm', 'gcacgmm', 'vmfcacgmm') else 0.0))
+    nposts = 0
     for j, (e, f) in enumerate(events):
+        if e == 'estep' and eps_fit >= 1e-4 and aligner is None and f['model'] is not None and nposts < 3 and \
+                not case['opts'].get('inline_permutation_alignment') and not case.get('sam'):
+            # the E-step of the alternation: Bayes posterior under the current model, clipped to [eps, 1 - eps] (no
+            # renormalisation after clipping)
+            nposts += 1
+            wrec = wca if not isinstance(wca, tuple) else list(wca)
+            recs.append(ml.posterior_record(kind, f['model'], data, f['aff'], wca=wrec, eps=eps_fit, fp=fp + ';estep', key=key + f':e{j}',
+                                            full=[*L, K, N]))
         if e == 'estep':
             last_e = f
             if comp == 'cacg' and kind == 'cacgmm' and f['qf'] is not None and f['model'] is not None and len(recs) < 6:
@@ -255,6 +274,8 @@ def _single(case):
     if case['concentrated']:
         proto = rng.normal(size=(*L, 1, D)) + (0 if real else 1j * rng.normal(size=(*L, 1, D)))
         y = proto + case.get('spread', 0.05) * y
+    if case.get('zero_frames') and dist in ('watson', 'vmf', 'bingham'):
+        y[..., 1:1 + case['zero_frames'], :] = 0          # digital silence: frames that stay zero after the normalisation
     sal = rng.integers(0, 4, size=(*L, N)).astype(float) if case['saliency'] and dist != 'cacg' else None
     if sal is not None:
         sal[..., 0] = 1.0
